@@ -254,6 +254,10 @@ def gen_options(rng, defs, refs, maxlen=4):
             name = rng.choice(refs) if refs else b"refs/heads"
             cut = rng.randrange(4, len(name) + 1)
             pat = name[:cut] if rng.random() < 0.8 else rng.choice([b"refs/", b"refs", b"refs/heads/"])
+            if rng.random() < 0.25:
+                # a PREFIX is used as written (no normalisation): a full name with a trailing slash matches only below it,
+                # a leading or doubled slash matches nothing
+                pat = rng.choice([name + b"/", name + b"/", b"/" + name, name.replace(b"/", b"//", 1), name + b"//"])
             if pat.startswith(b"@") or (pat.startswith(b"/") and pat.endswith(b"/") and len(pat) >= 2):
                 continue
             cli += [opt, pat.decode("latin1")] if rng.random() < 0.5 else [opt + "=" + pat.decode("latin1")]
